@@ -1464,3 +1464,118 @@ FAMILIES += [
                              'end:sabort']},
            case_timeout=120),
 ]
+
+
+# ------------------------------------------------------------------ pty ---
+#
+# A server session behind the line editor (a client that asked for a
+# terminal): the editor sits between the channel and the session and has a
+# line of its own in hand.  Callback order as the session sees it: what was
+# typed, then the end of input, then the end of the session - whatever part
+# of a line was still being edited when the input ended.
+
+def run_pty(case) -> CaseResult:
+    store: Dict[Any, List[Any]] = {}
+    sessions: List[Any] = []
+
+    class Server(memwire.PwServer):
+        def session_requested(self):
+            sess = memwire.LogServerSession(store, 's%d' % len(sessions))
+            sessions.append(sess)
+            return sess
+
+    pair = Pair({'server_factory': Server, 'encoding': 'utf-8'}, {})
+    h = pair.h
+    labels = {'pty', 'end:' + case['end']}
+
+    try:
+        pair.handshake()
+        chan, _ = h.run(pair.c.create_session(
+            lambda: memwire.LogClientSession(store, 'c'),
+            term_type='ansi' if case['term'] else None, encoding='utf-8'))
+        h.pump()
+        typed = ''
+
+        for piece in case['typed']:
+            h.call(chan.write, piece)
+            typed += piece
+
+            if case['pump_each']:
+                h.pump()
+
+        if typed and not typed.endswith('\n'):
+            labels.add('line-being-edited-at-the-end')
+
+        if case['end'] == 'eof':
+            h.call(chan.write_eof)
+            h.pump()
+            h.call(sessions[0].chan.exit, 0)
+        elif case['end'] == 'eof+close':
+            h.call(chan.write_eof)
+            h.call(chan.close)
+        elif case['end'] == 'cclose':
+            h.pump()
+            h.call(pair.c.close)
+        else:
+            h.pump()
+            h.call(sessions[0].chan.exit, 0)
+
+        h.pump()
+
+        if h.loop_errors:
+            raise Violation('loop-error', repr(h.loop_errors[0])[:400],
+                            'loop-error')
+
+        events = store.get('s0', [])
+        kinds = [e[0] for e in events]
+
+        if kinds.count('lost') != 1 or kinds[-1] != 'lost':
+            raise Violation('close-missing', 'server session behind the '
+                            'line editor: callbacks %r' % kinds[-6:],
+                            'pty:close-count')
+
+        if 'eof' in kinds:
+            after = kinds[kinds.index('eof') + 1:]
+
+            if any(k_ not in ('lost',) for k_ in after):
+                raise Violation(
+                    'callback-after-eof', 'server session behind the line '
+                    'editor got %r after eof_received() (typed %r)' %
+                    (after[:4], typed[-20:]), 'pty:callback-after-eof')
+
+        if case['end'] == 'eof':
+            if kinds.count('eof') != 1:
+                raise Violation('eof-missing', 'input ended with EOF, the '
+                                'session saw %d eof_received()' %
+                                kinds.count('eof'), 'pty:eof-count')
+
+            got = ''.join(e[2] for e in events if e[0] == 'data')
+            want = typed.replace('\r', '\n') if case['term'] else typed
+
+            if got != want:
+                raise Violation('data', 'typed %r, the session was given %r '
+                                'before the end of input' % (typed, got),
+                                'pty:data')
+
+        return CaseResult(sorted(labels), True)
+    finally:
+        pair.close()
+
+
+def pty_cases(tier: str):
+    texts = [[], ['abc'], ['abc\n'], ['one\n', 'tw'], ['one\ntwo\nthr'],
+             ['a', 'b', 'c'], ['x\n', 'y\n'], ['\n'], ['hé', 'llo']]
+
+    for term in (True, False):
+        for typed in texts:
+            for end in ('eof', 'eof+close', 'cclose', 'sexit'):
+                for pump_each in (True, False):
+                    yield {'term': term, 'typed': typed, 'end': end,
+                           'pump_each': pump_each}
+
+
+FAMILIES += [
+    Family('pty', run_pty, enumerate=pty_cases, exhaustive=True,
+           required={'all': ['line-being-edited-at-the-end', 'end:eof']},
+           case_timeout=120, timeout_is_violation=True),
+]
